@@ -172,7 +172,7 @@ func sensitivityReplay(repo, verif, prop string) []sensResult {
 					if strings.HasPrefix(strings.TrimSpace(l), "violated ") {
 						res[i].Note = oneLine(strings.TrimSpace(l))
 						if len(res[i].Note) > 200 {
-							res[i].Note = res[i].Note[:200]
+							res[i].Note = strings.ToValidUTF8(res[i].Note[:200], "")
 						}
 						break
 					}
